@@ -1,9 +1,11 @@
 import Driver.KV
 import Driver.Codec
+import Driver.Parsers
 open Driver
 
 structure World where
   kv : St := {}
+  ps : PSt := {}
 
 def step (w : World) (line : String) : World × String :=
   match words line with
@@ -14,7 +16,10 @@ def step (w : World) (line : String) : World × String :=
     | none =>
       match codecStep op args with
       | some out => (w, out)
-      | none => (w, "bad-op")
+      | none =>
+        match parsersStep w.ps op args with
+        | some (ps', out) => ({ w with ps := ps' }, out)
+        | none => (w, "bad-op")
 
 partial def loop (hin hout : IO.FS.Stream) (w : World) : IO Unit := do
   let line ← hin.getLine
